@@ -434,14 +434,17 @@ def nextSchedulerEvent (evTime : Int) : SimM SEvent := do
   let placed ← placedTasks
   let running := placed ++ s.future.map (·.1)
   let mut completions : List Int := []
+  let mut live : List TaskId := []
   for t in running do
     let x ← getTask t
     if x.state == .scheduled then
       let some p := x.placement | throw .attributeError
       let some pt := p.time | throw .typeError
       completions := completions ++ [pt + (← liftE x.remainingTime)]
+      live := live ++ [t]
     else if x.state == .running then
       completions := completions ++ [s.now + (← liftE x.remainingTime)]
+      live := live ++ [t]
   let minCompletion : Int := (match completions with
     | [] => maxsize
     | c :: cs => cs.foldl min c) + f.schedDelay
@@ -453,7 +456,9 @@ def nextSchedulerEvent (evTime : Int) : SimM SEvent := do
   let inp : RestartIn := {
     queueEmpty := s1.queue[0]?.isNone
     schedEmpty := sched.isEmpty
-    runningEmpty := running.isEmpty
+    -- only SCHEDULED / RUNNING tasks count as ongoing work (a task the policy has just
+    -- cancelled keeps its pending placement until its TASK_CANCEL event is handled)
+    runningEmpty := live.isEmpty
     minCompletion := minCompletion
     allBusy := sched.all (fun t =>
       match taskOf t with
